@@ -133,6 +133,49 @@ def couple (acc : Accumulation) (copies : List (List (Tensor α))) : Except Err 
     | .ok s, .mean => .ok (s.map (fun t => t.divScalar (ofNat' copies.length)))
     | .ok s, _ => .ok s
 
+/-- write the accumulated parameters back to every copy of a group -/
+def writeGroup (ls : List (InnerLayer α)) (group : List Nat) (ws : List (Tensor α)) (b : Option (Tensor α)) :
+    List (InnerLayer α) :=
+  group.foldl (fun ls i => L.modAt (fun l => setParams l ws b) ls i) ls
+
+/-- the accumulated parameters of one coupled group: weights/kernels and (if any copy has one) the bias -/
+def groupParams (acc : Accumulation) (ls : List (InnerLayer α)) (group : List Nat) :
+    Except Err (Option (List (Tensor α) × Option (Tensor α))) :=
+  let members := group.filterMap (fun i => (L.get? ls i).bind paramsOf)
+  match members with
+  | [] => if group.all (fun i => ((L.get? ls i).bind paramsOf).isNone) ∧ group.all (fun i => (L.get? ls i).isSome)
+          then .ok none else .error .index
+  | _ =>
+    match couple acc (members.map (·.1)) with
+    | .error e => .error e
+    | .ok ws =>
+      let biases := members.filterMap (·.2)
+      let b : Except Err (Option (Tensor α)) :=
+        match biases with
+        | [] => .ok none
+        | _ => match couple acc (biases.map (fun t => [t])) with
+          | .ok [t] => .ok (some t)
+          | .ok _ => .error .index
+          | .error e => .error e
+      match b with
+      | .error e => .error e
+      | .ok b => if group.any (fun i => (L.get? ls i).isNone) then .error .index else .ok (some (ws, b))
+
+/-- re-couple one group: accumulate the copies, write the same value back to each of them -/
+def recoupleGroup (acc : Accumulation) (ls : List (InnerLayer α)) (group : List Nat) : Except Err (List (InnerLayer α)) :=
+  match groupParams acc ls group with
+  | .error e => .error e
+  | .ok none => .ok ls
+  | .ok (some (ws, b)) => .ok (writeGroup ls group ws b)
+
+/-- re-couple every group, in order -/
+def recouple (acc : Accumulation) : List (List Nat) → List (InnerLayer α) → Except Err (List (InnerLayer α))
+  | [], ls => .ok ls
+  | g :: gs, ls =>
+    match recoupleGroup acc ls g with
+    | .error e => .error e
+    | .ok ls' => recouple acc gs ls'
+
 /-- `Feedback::update`: one optimizer step per unrolled copy, then re-coupling (accumulate and write
     the same value back to every copy of a group) -/
 def update (f : Feedback α) (stepnr : Nat) (wgs : List (Tensor α)) (bgs : List (Option (Tensor α))) :
@@ -157,34 +200,7 @@ def update (f : Feedback α) (stepnr : Nat) (wgs : List (Tensor α)) (bgs : List
   match stepped with
   | .error e => .error e
   | .ok (o', revLayers) =>
-    let layers := revLayers.reverse
-    -- couple
-    let coupledLayers := f.coupled.foldl (fun (st : Except Err (List (InnerLayer α))) group =>
-      match st with
-      | .error e => .error e
-      | .ok ls =>
-        let members := group.filterMap (fun i => (L.get? ls i).bind paramsOf)
-        match members with
-        | [] => if group.all (fun i => ((L.get? ls i).bind paramsOf).isNone) ∧ group.all (fun i => (L.get? ls i).isSome)
-                then .ok ls else .error .index
-        | _ =>
-          match couple f.accumulation (members.map (·.1)) with
-          | .error e => .error e
-          | .ok ws =>
-            let biases := members.filterMap (·.2)
-            let b : Except Err (Option (Tensor α)) :=
-              match biases with
-              | [] => .ok none
-              | _ => match couple f.accumulation (biases.map (fun t => [t])) with
-                | .ok [t] => .ok (some t)
-                | .ok _ => .error .index
-                | .error e => .error e
-            match b with
-            | .error e => .error e
-            | .ok b =>
-              if group.any (fun i => (L.get? ls i).isNone) then .error .index else
-              .ok (group.foldl (fun ls i => L.modAt (fun l => setParams l ws b) ls i) ls)) (.ok layers)
-    match coupledLayers with
+    match recouple f.accumulation f.coupled revLayers.reverse with
     | .error e => .error e
     | .ok ls => .ok { f with layers := ls, optimizer := o' }
 
